@@ -20,13 +20,16 @@ from overlay import HARNESS_DIR, MOUNTS
 class Harness:
     def __init__(self, name, file, props, tier="quick", timeout=600, mem=16, expect="pass",
                  desc="", functions="", bound="", stubs="", assumes="", stubbing=False,
-                 shape=None, covers_optional=(), replay=None, flavor="debug", attempt=False):
+                 shape=None, covers_optional=(), replay=None, flavor="debug", attempt=False, rss=None):
         self.name = name
         self.file = file
         self.props = props
         self.tier = tier
         self.timeout = int(timeout)
         self.mem = int(mem)
+        # rss: measured peak resident size in GB (+ margin), used by the scheduler's memory budget;
+        # `mem` stays the hard RLIMIT_AS cap.  Without a measurement the budget is half the cap.
+        self.rss = float(rss) if rss else None
         self.expect = expect
         self.desc = desc
         self.functions = functions
@@ -48,6 +51,9 @@ class Harness:
         # a timeout / out-of-memory is reported as "ATTEMPT did not close" and does not make the
         # check inconclusive.  Nothing is claimed from an attempt that did not close.
         self.attempt = attempt
+
+    def budget(self):
+        return self.rss if self.rss else self.mem / 2.0
 
     def descriptor(self):
         d = {
@@ -115,7 +121,7 @@ def parse_annotations(hf):
                     stubs=cur["stubs"], assumes=cur["assumes"],
                     covers_optional=tuple(x for x in kv.get("optcover", "").split("|") if x),
                     replay=kv.get("replay"), flavor=kv.get("flavor", "debug"),
-                    attempt=kv.get("attempt", "0") == "1"))
+                    attempt=kv.get("attempt", "0") == "1", rss=kv.get("rss")))
                 cur = keep
                 if keep is not None:
                     keep["_used"] = True
@@ -195,7 +201,7 @@ def buddy_plan():
     return plan
 
 
-RESIZE_PLAN = [(11, 16, 16, "quick"), (6, 13, 16, "quick"), (16, 11, 16, "quick"), (13, 6, 16, "quick"),
+RESIZE_PLAN = [(11, 16, 16, "quick"), (6, 13, 16, "thorough"), (16, 11, 16, "quick"), (13, 6, 16, "thorough"),
                (5, 6, 16, "thorough"), (8, 12, 16, "thorough"), (1, 16, 16, "thorough"), (12, 8, 16, "thorough"),
                (16, 1, 16, "thorough"), (7, 9, 16, "thorough"), (15, 16, 16, "thorough"), (16, 15, 16, "thorough")]
 
